@@ -12,6 +12,8 @@ the first operation and after every operation:
   gv  (state, label, style) tokens per group   lb  dataset label tokens
   rd  per subset: the (state, label, style) read *through the subset* and whether the objects
       read are identical to the ones held by its group
+  cs  the command and redo stacks of the AddData / RemoveData commands, with what each command
+      object recorded at its last do() (AddData._added, RemoveData._index)
 
 The Lean driver runs the same ops on the `Impl` model (comparison (a): snapshots equal) and
 evaluates the Spec predicate `specOk` on every python snapshot (comparison (c)).
@@ -104,6 +106,9 @@ class World:
                 self.did[id(m)] = len(self.data)
                 self.data.append(m)
                 self.keep.append(m)
+        elif k == 'ins':
+            if op[2] < nd:
+                dc.insert(op[1], self.data[op[2]])
         elif k == 'seti':
             if op[2] < nd:
                 dc['d%i' % op[1]] = self.data[op[2]]
@@ -258,9 +263,18 @@ class World:
                 ['cs', self._cmds(self.stack._command_stack), self._cmds(self.stack._undo_stack)]]
 
     def _cmds(self, cmds):
+        # the command objects with what their last do() recorded (fix F4b): AddData._added,
+        # RemoveData._index
         out = []
         for c in reversed(cmds):  # most recent first
-            out.append(['a' if type(c) is AddData else 'r' if type(c) is RemoveData else 'x', self._d(c.data)])
+            if type(c) is AddData:
+                a = getattr(c, '_added', 'X')
+                out.append(['a', self._d(c.data), a if isinstance(a, bool) else 'X'])
+            elif type(c) is RemoveData:
+                i = getattr(c, '_index', 'X')
+                out.append(['r', self._d(c.data), i if (i is None or type(i) is int) else 'X'])
+            else:
+                out.append(['x', self._d(getattr(c, 'data', None)), 'X'])
         return out
 
 
@@ -278,6 +292,8 @@ def _canonical(ops):
     for op in ops:
         if op[0] in ('app', 'rem', 'ca', 'cr'):
             args = [op[1]]
+        elif op[0] == 'ins':
+            args = [op[2]]
         elif op[0] in ('ext', 'mrg'):
             args = op[1:]
         elif op[0] == 'seti':
@@ -312,11 +328,18 @@ CORE = ([['app', d] for d in range(ND)] + [['rem', d] for d in range(ND)] +
 
 EXT = ([['ext', 0, 1], ['ext', 1, 0, 2], ['mrg', 0, 1], ['mrg', 1, 0], ['mrg', 0, 3], ['mrg', 0, 0],
         ['seti', 0, 0], ['seti', 0, 1], ['seti', 1, 0], ['seti', 5, 1], ['rst'],
+        ['ins', 0, 0], ['ins', 0, 1], ['ins', 1, 2], ['ins', 7, 1],
         ['ss', 0, 1], ['sl', 0, 2], ['sy', 0, 2], ['sy', 1, 3], ['ss', 1, 4],
         ['ca', 0], ['cr', 0], ['cr', 1], ['undo'], ['redo']])
 
 # the AddData / RemoveData commands through a CommandStack, with undo and redo
 CMD = [['ca', 0], ['ca', 1], ['cr', 0], ['cr', 1], ['undo'], ['redo'], ['ng'], ['rg', 0], ['app', 1], ['rem', 0]]
+
+# position-sensitive histories: from a collection of three datasets with a live group, removing the
+# first / middle / last dataset by command, undo (which must re-insert at the recorded position, also
+# when a direct remove / insert / group creation came in between and the position is stale), redo
+POS_PREFIX = [['ext', 0, 1, 2], ['ng']]
+POS = [['cr', 0], ['cr', 1], ['cr', 2], ['ca', 1], ['undo'], ['redo'], ['rem', 1], ['rem', 2], ['ins', 0, 2], ['ng']]
 
 
 def sequences(alphabet, length):
@@ -352,8 +375,10 @@ def random_op(rng, nd, made):
         return ['seti', rng.randrange(nd + 1), d()]
     if r < 0.84:
         return ['rst']
-    if r < 0.88:
+    if r < 0.86:
         return [rng.choice(['ca', 'cr']), d()]
+    if r < 0.88:
+        return ['ins', rng.randrange(5), d()]
     if r < 0.92:
         return [rng.choice(['undo', 'undo', 'redo'])]
     if made:
@@ -400,7 +425,14 @@ class Seq(Family):
         for ops in ([['app', 0], ['app', 1], ['ng'], ['rem', 1], ['app', 1]],
                     [['app', 0], ['ng'], ['ng'], ['rem', 0], ['rg', 0], ['app', 0], ['rst'], ['rem', 0]],
                     [['app', 0], ['ng'], ['seti', 0, 0], ['seti', 0, 0]],
-                    [['ext', 0, 1], ['ng'], ['mrg', 0, 1], ['app', 0], ['clr'], ['app', 3]]):
+                    [['ext', 0, 1], ['ng'], ['mrg', 0, 1], ['app', 0], ['clr'], ['app', 3]],
+                    # F4b-d (C13): undo of RemoveData re-inserts at the recorded position, commands
+                    # without effect are undone without effect, a stale position is clamped
+                    [['ext', 0, 1, 2], ['ng'], ['cr', 0], ['undo'], ['redo'], ['undo']],
+                    [['ext', 0, 1, 2], ['ng'], ['cr', 1], ['ng'], ['cr', 0], ['undo'], ['undo'], ['rg', 0], ['redo']],
+                    [['app', 0], ['ng'], ['ca', 0], ['undo'], ['cr', 1], ['undo'], ['redo'], ['redo']],
+                    [['ext', 0, 1], ['ng'], ['cr', 1], ['rem', 0], ['undo'], ['ins', 0, 0], ['ins', 5, 2], ['rst'], ['rem', 1]],
+                    [['ext', 0, 1, 2], ['cr', 2], ['clr'], ['ng'], ['undo'], ['ca', 2], ['undo'], ['redo']]):
             yield [ND, nc, ops]
         # exhaustive: one extended op (extend / merge / setitem / restore / setters) at any position
         # of a core sequence of length L-1 (quick: L-2 around it)
@@ -417,6 +449,11 @@ class Seq(Family):
         for ops in sequences(CMD, Lc):
             if _canonical(ops) and any(o[0] in ('undo', 'redo') for o in ops):
                 yield [ND, nc, ops]
+        # exhaustive: position-sensitive command words (see POS)
+        Lp = 4 if tier == "quick" else 5
+        for ops in sequences(POS, Lp):
+            if any(o[0] == 'undo' for o in ops):
+                yield [ND, nc, [list(o) for o in POS_PREFIX] + ops]
         # two extended ops in a row after a short core prefix
         for pre in sequences(CORE, 1 if tier == "quick" else 2):
             for x in EXT:
@@ -483,8 +520,8 @@ def _features(ops):
         k = op[0]
         if k == 'ng':
             groups += 1
-        if k in ('app', 'ext', 'seti'):
-            ds = op[1:] if k != 'seti' else [op[2]]
+        if k in ('app', 'ext', 'seti', 'ins'):
+            ds = op[1:] if k not in ('seti', 'ins') else [op[2]]
             for d in ds:
                 if d in removed and d not in in_dc and groups:
                     f.add('reappend-after-remove')
@@ -502,7 +539,7 @@ def _features(ops):
         if k == 'clr':
             removed |= in_dc
             in_dc = set()
-        if k in ('rst', 'mrg', 'seti', 'rg', 'undo', 'redo'):
+        if k in ('rst', 'mrg', 'seti', 'ins', 'rg', 'undo', 'redo'):
             f.add(k)
     return f
 
@@ -511,7 +548,7 @@ for _cls in (Seq, SeqRandom):
     _cls.run_impl = lambda self, case: _run(case)
     _cls.shrink = lambda self, case: _shrink(case)
     _cls.line = lambda self, case, pyout: __import__("harness.core", fromlist=["sx"]).sx(["seq", case, pyout])
-    _cls.nontrivial = lambda self, case, po: any(op[0] == 'ng' for op in case[2]) and any(op[0] in ('app', 'ext', 'seti', 'mrg', 'ca') for op in case[2])
+    _cls.nontrivial = lambda self, case, po: any(op[0] == 'ng' for op in case[2]) and any(op[0] in ('app', 'ext', 'ins', 'seti', 'mrg', 'ca') for op in case[2])
     _cls.signature = lambda self, case, po, res: {"construct": "+".join(sorted(_features(case[2]))) or "plain"}
 
 
@@ -525,5 +562,5 @@ PROP = Property(
                   "GlueSerializer / GlueUnSerializer are exercised, not modelled: `restore` models their effect on the collection bookkeeping only"],
     assumptions=["datasets enter the collection without subsets of their own (clients create subsets only through new_subset_group, as the module docstring of subset_group.py demands)",
                  "after a session restore the restored objects stand for the saved ones; objects of the old session that were in the old collection are out of scope"],
-    rule="exhaustive: all sequences of exactly L core ops (append/remove x3 datasets, new group (<=2), remove group, clear; L=5 quick, 6 thorough) modulo dataset symmetry, every prefix checked through per-step snapshots; one extended op (extend/merge/setitem/restore/setters/AddData-RemoveData commands/undo/redo) at every position of every core sequence of length 3 (quick) / 4 (thorough); all command/undo/redo words of length 4/5; all pairs of extended ops after 1 (quick) / 2 (thorough) core ops; seeded random sequences up to length 60 with up to 5 groups and merged datasets. non-trivial = creates a group and adds a dataset",
+    rule="exhaustive: all sequences of exactly L core ops (append/remove x3 datasets, new group (<=2), remove group, clear; L=5 quick, 6 thorough) modulo dataset symmetry, every prefix checked through per-step snapshots; one extended op (extend/insert/merge/setitem/restore/setters/AddData-RemoveData commands/undo/redo) at every position of every core sequence of length 3 (quick) / 4 (thorough); all command/undo/redo words of length 4/5; all position-sensitive words of length 4/5 over {RemoveData x3, AddData, undo, redo, direct remove x2, insert in front, new group} after extend[0,1,2] + new group (undo must re-insert at the recorded, possibly stale, position); all pairs of extended ops after 1 (quick) / 2 (thorough) core ops; seeded random sequences up to length 60 with up to 5 groups and merged datasets. non-trivial = creates a group and adds a dataset",
 )
